@@ -69,16 +69,22 @@ def _cases(args):
                     continue
                 valid = (ck is None or ck.lower() == true) and (sz is None or sz == len(data))
                 for prior in ("absent", "unreferenced", "referenced"):
-                    for entry in ("store", "dii"):
+                    for entry in ("store", "store+same-additional", "store+other-additional", "dii"):
                         if entry == "dii" and ck is None:
+                            continue
+                        if entry.startswith("store+") and (ck is None or prior != "absent" and TIER == "quick"):
                             continue
                         restore(root, _TREES[(c, prior)])
                         s = FileHashStore(common.props(root))
                         before = abstract(snapshot(root), lay, ("bystander", "holder", "new"))
                         n += 1
                         try:
-                            if entry == "store":
+                            if entry.startswith("store"):
                                 kw = {}
+                                if entry == "store+same-additional":
+                                    kw["additional_algorithm"] = sp
+                                elif entry == "store+other-additional":
+                                    kw["additional_algorithm"] = "sha224" if algo != "sha224" else "sha3_256"
                                 if ck is not None:
                                     kw.update(checksum=ck, checksum_algorithm=sp)
                                 if sz is not None:
@@ -97,14 +103,14 @@ def _cases(args):
                                 errs.append("valid data rejected with %s" % out)
                             if cid not in after.objects:
                                 errs.append("valid data: object not present afterwards")
-                            if entry == "store" and after.pid_refs.get("new") != cid:
+                            if entry.startswith("store") and after.pid_refs.get("new") != cid:
                                 errs.append("valid data: pid not bound")
                         else:
                             if out != "mismatch":
                                 errs.append("invalid data: outcome %s instead of a mismatch error" % out)
                             if "new" in after.pid_refs:
                                 errs.append("invalid data: pid bound")
-                            if entry == "store" and set(after.objects) != set(before.objects):
+                            if entry.startswith("store") and set(after.objects) != set(before.objects):
                                 errs.append("invalid data: rejected store changed the set of objects")
                             if entry == "dii":
                                 if prior == "referenced" and cid not in after.objects:
